@@ -435,7 +435,7 @@ def r5_9(cx):
     """distinct allocations never overlap: allocation caches are never shared or duplicated and clones copy anchors and their counts memberwise (R20.1, bump writers of R20.2, R20.3)"""
     from . import c20
     sub = cx.__class__(cx.prog, cx.profile, cx.prop)
-    for rid, f in (('R20.1', c20.r20_1), ('R20.2', c20.r20_2), ('R20.3', c20.r20_3)):
+    for rid, f in (('R20.1', c20.r20_1), ('R20.2', c20.r20_2), ('R20.3', c20.r20_3), ('R20.4', c20.r20_4)):
         sub.rule = rid
         f(sub)
     for rec in sub.records:
